@@ -143,6 +143,16 @@ theorem c04_origin_sound (E : EvalEnv) (s : Sp) :
   unfold OriginOk at this
   exact this
 
+/-- The correspondence driver evaluates the checker against the origin computed with the
+    DOCUMENTED Coalesce default (`skip_exc=GlomError`) rather than the extracted one; for
+    well-formed facts the two coincide. -/
+theorem c04_reference_origin (F : Facts) (hwf : WF F = true) :
+    ({ F with coalesceSkipDefault := ["GlomError"], frameCatch := ["Exception"] } : Facts) = F := by
+  have w := WF_parts hwf
+  cases F
+  simp only [Facts.mk.injEq, true_and, and_true]
+  exact ⟨w.frameCatch.symm, w.coalesceSkip.symm⟩
+
 /-- **Checker theorem** — the form in which the property is also evaluated on the
     implementation's observation by the correspondence driver. -/
 theorem c04_model_checks (F : Facts) (hwf : WF F = true) (s : Settings) (e : ExcObj) :
